@@ -486,8 +486,9 @@ let run_monitor infile outfile =
 
 (* ---------------------------------------------------------------- tracepv mode
    raftrun tracepv <traces.txt> <out>
-   Trace validation of schedules with Config.PreVote (header flags = 1: PreVote without
-   CheckQuorum; other schedules are skipped) against RaftPV.exec_pv through the extracted
+   Trace validation of schedules with Config.PreVote (header flags = 1, or 3 = with
+   Config.CheckQuorum, whose two effects are accepted angelically: PvStepDown on a tick, the
+   no-op for an ignored vote request; other schedules are skipped) against RaftPV.exec_pv through the extracted
    check_step_pv.  XPV / XPW = MsgPreVote / MsgPreVoteResp; role Q = pre-candidate. *)
 
 let pmsg_of_tokens (toks : string list) : pmsg =
@@ -519,13 +520,14 @@ let run_tracepv infile outfile =
     flush_group ();
     let gs = List.rev !groups in
     groups := [];
-    if !cur_flags <> 1 then Printf.fprintf oc "S %s SKIP flags=%d\n" !cur_k !cur_flags else begin
+    if !cur_flags <> 1 && !cur_flags <> 3 then Printf.fprintf oc "S %s SKIP flags=%d\n" !cur_k !cur_flags else begin
+    let cq = (!cur_flags land 2) <> 0 in
     let n = !cur_n in
     let ids = List.init n (fun i -> nat_of_int (i + 1)) in
     let c0 = ids and c1 = [] in
     let x = ref (normalize_pv n px_init) in
     let fail = ref None in
-    let idx = ref 0 and prevotes = ref 0 and precand = ref 0 and elections = ref 0 in
+    let idx = ref 0 and prevotes = ref 0 and precand = ref 0 and elections = ref 0 and stepdowns = ref 0 and leased = ref 0 in
     let prevrole = Array.make (n + 1) "F" in
     (try
        List.iter (fun g ->
@@ -549,16 +551,28 @@ let run_tracepv infile outfile =
                   (* a tick that fired the election timeout of a pre-candidate changes nothing that is
                      observed (same term, same role) but restarts the pre-election: tell it by the
                      MsgPreVote it sends *)
-                  if List.exists (fun m -> match m with PV _ -> true | _ -> false) outs then [PvCampaign; PvTick] else [PvTick; PvCampaign]
+                  (if List.exists (fun m -> match m with PV _ -> true | _ -> false) outs then [PvCampaign; PvTick] else [PvTick; PvCampaign])
+                  (* Config.CheckQuorum: the tick may be the one on which the leader finds no active quorum *)
+                  @ (if cq then [PvStepDown] else [])
                 | "K" | "SR" -> [PvTick]
                 | "R" -> [PvRestart]
-                | "D" | "DD" -> [PvRecv (pmsg_of_tokens g.g_args)]
+                | "D" | "DD" ->
+                  (* Config.CheckQuorum: a vote request may be ignored altogether (leader lease) *)
+                  [PvRecv (pmsg_of_tokens g.g_args)]
+                  @ (match g.g_args with ("V" | "XPV") :: _ when cq -> [PvTick] | _ -> [])
                 | "FP" | "FPD" -> (match g.g_args with _ :: _ :: _ :: p :: _ -> [PvPropose (nat_of_int (int_of_string p))] | _ -> failwith "bad FP")
                 | k -> failwith ("unknown event kind " ^ k)
               with Unmodelled c -> fail := Some (Printf.sprintf "event=%d reason=unmodelled-message %s" !idx c); raise Exit) in
            let rec try_all_ok evs = match evs with
              | [] -> None
-             | ev :: rest -> (match check_step_pv c0 c1 !x idn ev outs obs obs_pre with PVOk x' -> Some x' | _ -> try_all_ok rest) in
+             | ev :: rest -> (match check_step_pv c0 c1 !x idn ev outs obs obs_pre with
+                 | PVOk x' ->
+                   (match ev, base with
+                    | PvStepDown, _ -> incr stepdowns
+                    | PvTick, ("D" | "DD") -> incr leased
+                    | _ -> ());
+                   Some x'
+                 | _ -> try_all_ok rest) in
            let first_verdict = check_step_pv c0 c1 !x idn (List.hd candidates) outs obs obs_pre in
            let verdict = match first_verdict with
              | PVOk _ -> first_verdict
@@ -577,7 +591,7 @@ let run_tracepv infile outfile =
      with Exit -> ());
     (match !fail with
      | Some f -> Printf.fprintf oc "S %s FAIL %s\n" !cur_k f
-     | None -> Printf.fprintf oc "S %s OK events=%d nodes=%d elections=%d precandidacies=%d prevoteresp=%d\n" !cur_k !idx n !elections !precand !prevotes)
+     | None -> Printf.fprintf oc "S %s OK events=%d nodes=%d elections=%d precandidacies=%d prevoteresp=%d checkquorum=%d stepdowns=%d leased=%d\n" !cur_k !idx n !elections !precand !prevotes (if cq then 1 else 0) !stepdowns !leased)
     end in
   List.iter (fun l ->
       match split_ws l with
